@@ -159,11 +159,11 @@ func (ex *Exec) heapTyping(st *State, name string, c *Term) {
 	switch {
 	case c.Sort == ArraySort(SInt, SInt):
 		r := Sym("r!q", SInt)
-		f = Forall([]*Term{r}, okRef(Select(c, r)))
+		f = Forall([]*Term{r}, Implies(Select(al, r), okRef(Select(c, r))))
 	case c.Sort.IsArray() && c.Sort.ElemSort().IsArray() && c.Sort.ElemSort().ElemSort() == SInt:
 		r := Sym("r!q", SInt)
 		k := Sym("k!q", c.Sort.ElemSort().IndexSort())
-		f = Forall([]*Term{r, k}, okRef(Select(Select(c, r), k)))
+		f = Forall([]*Term{r, k}, Implies(Select(al, r), okRef(Select(Select(c, r), k))))
 	default:
 		return
 	}
